@@ -680,3 +680,48 @@ func (g *CallGraph) RecursiveSCCs() [][]*ssa.Function {
 	sort.Slice(out, func(i, j int) bool { return g.p.FuncName(out[i][0]) < g.p.FuncName(out[j][0]) })
 	return out
 }
+
+// paramAlwaysGlobal: the parameter of a private function that receives, at every call, the value of one and the
+// same package-level variable (directly, or as the caller's parameter that itself always receives it): inside the
+// function it *is* that variable. Returns nil when that is not established.
+func (p *Prog) paramAlwaysGlobal(par *ssa.Parameter, depth int) *ssa.Global {
+	fn := par.Parent()
+	if fn == nil || fn.Parent() != nil || depth > 3 {
+		return nil
+	}
+	if obj := fn.Object(); obj != nil && obj.Exported() {
+		return nil
+	}
+	idx := -1
+	for i, q := range fn.Params {
+		if q == par {
+			idx = i
+		}
+	}
+	edges := p.CG().In[fn]
+	if idx < 0 || len(edges) == 0 {
+		return nil
+	}
+	var g *ssa.Global
+	for _, e := range edges {
+		if e.Kind != "static" || !p.InRepo(e.Caller) {
+			return nil
+		}
+		args := e.Site.Common().Args
+		if idx >= len(args) {
+			return nil
+		}
+		var cur *ssa.Global
+		switch a := args[idx].(type) {
+		case *ssa.UnOp:
+			cur, _ = a.X.(*ssa.Global)
+		case *ssa.Parameter:
+			cur = p.paramAlwaysGlobal(a, depth+1)
+		}
+		if cur == nil || (g != nil && cur != g) {
+			return nil
+		}
+		g = cur
+	}
+	return g
+}
